@@ -17,11 +17,15 @@
 //     the callbacks receive external ids and look the pool column up (an id that is not in the pool throws).
 //     "Designated sample i" = pool column of r_i: Y0, R, NB, PROJ below are all per POSITION in the range,
 //     the P lines carry the external ids the distance callback was called with.
-//   SPE id N D d global k nupd maxiter tol srand shseed useed umode nbm log   + pool block
+//   SPE id N D d global k nupd maxiter tol srand shseed useed umode nbm log flags   + pool block
+//       flags: bits 1 2 4 8 16 32 = leave max_iteration / spe_num_updates / spe_tolerance / spe_global_strategy /
+//              num_neighbors / neighbors_method UNSET (the library default applies); 64 = call embed() from thread 0 of
+//              an application's own `#pragma omp parallel num_threads(3)` region; 128 = with nested parallelism enabled
+//       maxiter 0 = SPE's automatic schedule (2000 + floor(0.04 N N) iterations, three times as many for the local strategy)
 //       umode 0: u = 20-bit dyadic from mt19937_64(useed); 1: u = 1 - 2^-20; 2: u = 0; 3: u = m/8 from mt19937_64(useed)
 //       nbm 0 Brute, 1 VpTree, 2 CoverTree ; log 0 none, 1 shuffled values + pairs, 2 + from, u, Y0, R
-//   RP  id N D d gseed gmode   + pool block       gmode 0: g = small dyadic from mt19937_64(gseed), 1: N(0,1)
-//   FA  id N D d maxiter eps srand  + pool block
+//   RP  id N D d gseed gmode flags  + pool block  gmode 0: g = small dyadic from mt19937_64(gseed), 1: N(0,1); flags 64 / 128 as SPE
+//   FA  id N D d maxiter eps srand flags + pool block    flags: 1 = max_iteration unset, 2 = fa_epsilon unset, 64 / 128 as SPE
 //   RPM id D d srand reps        moments of gaussian_projection_matrix (meaningful with -DC19_PLAIN)
 //   RPP id D d srand             (-DC19_PLAIN) the std::rand answers gaussian_projection_matrix(D, d) consumes
 //                                (re-drawn after the same srand) and the matrix itself: replay of the polar method
@@ -32,6 +36,7 @@
 //   CPULIMIT s                   RLIMIT_CPU for this process (a hang is detected by CPU time, not by wall clock)
 // stdout: "C id" (flushed before the case runs), result lines, "END id".
 #include <sys/resource.h>
+#include <omp.h>
 
 #include <algorithm>
 #include <cmath>
@@ -100,6 +105,36 @@ static TapkeeOutput embed_with(It b, It e, K k, Dc d, Fc f, stichwort::Parameter
     Impl<It, K, Dc, Fc> implementation(base);
     implementation.validate();
     return implementation.embed();
+}
+
+// run `call` either directly or from thread 0 of the application's own parallel region (flags 64 / 128)
+template <class Call> static void run_maybe_in_parallel_region(int flags, Call call)
+{
+    if (!(flags & 64))
+    {
+        call();
+        return;
+    }
+    std::exception_ptr ep;
+    const int levels = omp_get_max_active_levels();
+    omp_set_max_active_levels((flags & 128) ? 3 : 1);
+#pragma omp parallel num_threads(3)
+    {
+        if (omp_get_thread_num() == 0)
+        {
+            try
+            {
+                call();
+            }
+            catch (...)
+            {
+                ep = std::current_exception();
+            }
+        }
+    }
+    omp_set_max_active_levels(levels);
+    if (ep)
+        std::rethrow_exception(ep);
 }
 
 // ------------------------------------------------------------------------------------------ log
@@ -297,11 +332,11 @@ static NeighborsMethod nb_method(int nbm)
 // ------------------------------------------------------------------------------------------ SPE
 static void run_spe(std::istream& in, const std::string& id)
 {
-    int N, D, d, global, k, nupd, maxiter, nbm, log, umode;
+    int N, D, d, global, k, nupd, maxiter, nbm, log, umode, flags;
     unsigned srand_seed, shseed;
     unsigned long long useed;
     std::string tol_s;
-    in >> N >> D >> d >> global >> k >> nupd >> maxiter >> tol_s >> srand_seed >> shseed >> useed >> umode >> nbm >> log;
+    in >> N >> D >> d >> global >> k >> nupd >> maxiter >> tol_s >> srand_seed >> shseed >> useed >> umode >> nbm >> log >> flags;
     double tol = std::strtod(tol_s.c_str(), nullptr);
     Pool pool;
     if (!in || N < 0 || D < 0 || N > 100000 || D > 10000 || !read_pool(in, N, D, pool))
@@ -338,7 +373,8 @@ static void run_spe(std::istream& in, const std::string& id)
             g_logging = false;
             tapkee_internal::PlainDistance<std::vector<int>::iterator, log_distance> pd(dcb);
             if (k >= 3 && k < N)
-                nbs = tapkee_internal::find_neighbors(nb_method(nbm), data.begin(), data.end(), pd, k, true);
+                nbs = tapkee_internal::find_neighbors((flags & 32) ? default_neighbors_method : nb_method(nbm), data.begin(),
+                                                      data.end(), pd, k, true);
         }
         catch (const std::exception& e)
         {
@@ -358,11 +394,25 @@ static void run_spe(std::istream& in, const std::string& id)
     bool ok = false;
     try
     {
-        out = embed_with<tapkee_internal::StochasticProximityEmbeddingImplementation>(
-            data.begin(), data.end(), kcb, dcb, fcb,
-            (method = StochasticProximityEmbedding, target_dimension = d, num_neighbors = k,
-                     spe_global_strategy = (global != 0), spe_num_updates = nupd, spe_tolerance = tol,
-                     max_iteration = maxiter, neighbors_method = nb_method(nbm)));
+        stichwort::ParametersSet ps;
+        ps.add((method = StochasticProximityEmbedding));
+        ps.add((target_dimension = d));
+        if (!(flags & 1))
+            ps.add((max_iteration = maxiter));
+        if (!(flags & 2))
+            ps.add((spe_num_updates = nupd));
+        if (!(flags & 4))
+            ps.add((spe_tolerance = tol));
+        if (!(flags & 8))
+            ps.add((spe_global_strategy = (global != 0)));
+        if (!(flags & 16))
+            ps.add((num_neighbors = k));
+        if (!(flags & 32))
+            ps.add((neighbors_method = nb_method(nbm)));
+        run_maybe_in_parallel_region(flags, [&]() {
+            out = embed_with<tapkee_internal::StochasticProximityEmbeddingImplementation>(data.begin(), data.end(), kcb, dcb,
+                                                                                          fcb, ps);
+        });
         ok = true;
     }
     catch (const std::exception& e)
@@ -438,9 +488,9 @@ static void run_spe(std::istream& in, const std::string& id)
 // ------------------------------------------------------------------------------------------ RP
 static void run_rp(std::istream& in, const std::string& id)
 {
-    int N, D, d, gmode;
+    int N, D, d, gmode, flags;
     unsigned long long gseed;
-    in >> N >> D >> d >> gseed >> gmode;
+    in >> N >> D >> d >> gseed >> gmode >> flags;
     Pool pool;
     if (!in || N < 0 || D < 0 || N > 100000 || D > 10000 || !read_pool(in, N, D, pool))
     {
@@ -459,8 +509,11 @@ static void run_rp(std::istream& in, const std::string& id)
     g_logging = true;
     try
     {
-        TapkeeOutput out = embed_with<tapkee_internal::RandomProjectionImplementation>(
-            data.begin(), data.end(), kcb, dcb, fcb, (method = RandomProjection, target_dimension = d));
+        TapkeeOutput out;
+        run_maybe_in_parallel_region(flags, [&]() {
+            out = embed_with<tapkee_internal::RandomProjectionImplementation>(
+                data.begin(), data.end(), kcb, dcb, fcb, (method = RandomProjection, target_dimension = d));
+        });
         g_logging = false;
         std::printf("OK %d %d\n", (int)out.embedding.rows(), (int)out.embedding.cols());
         print_hex("G", g_gauss.data(), g_gauss.size());
@@ -490,10 +543,10 @@ static void run_rp(std::istream& in, const std::string& id)
 // ------------------------------------------------------------------------------------------ FA
 static void run_fa(std::istream& in, const std::string& id)
 {
-    int N, D, d, maxiter;
+    int N, D, d, maxiter, flags;
     unsigned srand_seed;
     std::string eps_s;
-    in >> N >> D >> d >> maxiter >> eps_s >> srand_seed;
+    in >> N >> D >> d >> maxiter >> eps_s >> srand_seed >> flags;
     double eps = std::strtod(eps_s.c_str(), nullptr);
     Pool pool;
     if (!in || N < 0 || D < 0 || N > 100000 || D > 10000 || !read_pool(in, N, D, pool))
@@ -513,9 +566,17 @@ static void run_fa(std::istream& in, const std::string& id)
     std::srand(srand_seed);
     try
     {
-        TapkeeOutput out = embed_with<tapkee_internal::FactorAnalysisImplementation>(
-            data.begin(), data.end(), kcb, dcb, fcb,
-                                 (method = FactorAnalysis, target_dimension = d, max_iteration = maxiter, fa_epsilon = eps));
+        stichwort::ParametersSet ps;
+        ps.add((method = FactorAnalysis));
+        ps.add((target_dimension = d));
+        if (!(flags & 1))
+            ps.add((max_iteration = maxiter));
+        if (!(flags & 2))
+            ps.add((fa_epsilon = eps));
+        TapkeeOutput out;
+        run_maybe_in_parallel_region(flags, [&]() {
+            out = embed_with<tapkee_internal::FactorAnalysisImplementation>(data.begin(), data.end(), kcb, dcb, fcb, ps);
+        });
         std::printf("OK %d %d\n", (int)out.embedding.rows(), (int)out.embedding.cols());
         print_rows("A0", A0);
         print_rows("Y", out.embedding);
